@@ -16,6 +16,11 @@ STATUS_FUNCS: Dict[str, Callable[[Tuple[int, ...]], int]] = {
 }
 STATUS_TABLE: Dict[str, int] = {'error': 500, 'ok': 200}
 
+def sub_status(status: str) -> str:
+    """the status function of a mounted JSON-RPC sub-application: always another one than the outer application's"""
+    return 'count' if status != 'count' else 'any-error-500'
+
+
 def codec_kwargs(codec: str) -> Dict[str, Any]:
     """'custom': application JSON encoder / decoder classes on the integration (see pbt/codecs.py)"""
     from pbt import codecs
@@ -69,7 +74,13 @@ def get_app(integration: str, status: str, base: str, codec: str = 'default', pr
         from pjrpc.server.integration import aiohttp as integ
         rpc = integ.Application(base, **kw)
         rpc.dispatcher.add_methods(_registry('async'))
-        sub = rpc.add_endpoint(reg_prefix, **({'subapp': web.Application()} if nested else {}), **ckw)
+        if nested == 'app':
+            # the extra endpoint is a JSON-RPC application of its own (with its OWN status function) mounted through add_subapp()
+            subrpc = integ.Application('', status_by_error=STATUS_FUNCS[sub_status(status)], **ckw)
+            rpc.add_subapp(reg_prefix, subrpc)
+            sub = subrpc.dispatcher
+        else:
+            sub = rpc.add_endpoint(reg_prefix, **({'subapp': web.Application()} if nested else {}), **ckw)
         sub.add_methods(_registry('async', 'sub'))
         # a second, unrelated integration object of the same process (another API version): it serves nothing here
         decoy = integ.Application('/decoy')
